@@ -209,7 +209,9 @@ where
 
         let (mut scratches, _) = scratch.split_mut(threads, scratch_thread_size);
 
-        let chunk_size: usize = circuit.output_size().div_ceil(threads);
+        // `chunks_mut` panics on a chunk size of 0: a circuit without outputs spawns no worker
+        // (the loop below then zeroes every element of `out`).
+        let chunk_size: usize = circuit.output_size().div_ceil(threads).max(1);
 
         thread::scope(|scope| {
             for (thread_idx, (scratch_thread, out_chunk)) in scratches
